@@ -11,6 +11,7 @@ static int g_realloc_calls, g_calloc_calls; static size_t g_calloc_n[2], g_callo
 static void* vh_realloc(void* p, size_t n) { (void)n; g_realloc_calls++; return p; }
 static void* vh_calloc(size_t n, size_t sz) { int i = g_calloc_calls++; if (i < 2) { g_calloc_n[i] = n; g_calloc_sz[i] = sz; return g_calloc_result[i]; } return 0; }
 #define MON_HOOK mon_hook
+#define MON_UNLOCK_HOOK mon_unlock_hook
 #define MON_NO_DATA
 #include "mutex_monitor.h"
 #define realloc vh_realloc
@@ -23,6 +24,8 @@ static void* vh_calloc(size_t n, size_t sz) { int i = g_calloc_calls++; if (i < 
 
 static wasmMemory mem;
 static U32 g_snap_pages; static int g_snapped;
+static U32 g_unl_pages, g_unl_size; static int g_unlocked;
+static void mon_unlock_hook(void) { g_unl_pages = mem.pages; g_unl_size = mem.size; g_unlocked = 1; }
 static void mon_hook(void) {
     /* interference by other threads up to the moment we own the lock */
     ND(U32, other_pages);
@@ -33,7 +36,7 @@ static void mon_hook(void) {
 #ifndef VERIF_NATIVE
 U32 c_wasmMemoryGrow(wasmMemory* memory, const U32 delta)
   __CPROVER_requires(1) __CPROVER_ensures(1)
-  __CPROVER_assigns(memory->pages, memory->size, memory->data, g_mutex_held, g_mutex_locks, g_snap_pages, g_snapped, g_realloc_calls);
+  __CPROVER_assigns(memory->pages, memory->size, memory->data, g_mutex_held, g_mutex_locks, g_snap_pages, g_snapped, g_realloc_calls, g_unl_pages, g_unl_size, g_unlocked);
 #endif
 
 void h_grow_shared(void) {
@@ -42,8 +45,9 @@ void h_grow_shared(void) {
     U32 r, before;
     ASSUME(pages <= maxPages && maxPages <= 65535u);     /* shared memories always declare a maximum; 4 GiB excluded (C05 finding) */
     mem.data = buf; mem.pages = pages; mem.maxPages = maxPages; mem.size = pages * 65536u; mem.shared = 1; mem.futex = 0; mem.futexFree = 0;
-    g_mutex_held = 0; g_mutex_locks = 0; g_snapped = 0; g_realloc_calls = 0;
+    g_mutex_held = 0; g_mutex_locks = 0; g_snapped = 0; g_realloc_calls = 0; g_unlocked = 0;
     r = wasmMemoryGrow(&mem, delta);
+    OBL(g_unlocked && mem.pages == g_unl_pages && mem.size == g_unl_size, "shared grow: the descriptor is complete when the lock is released and is not written afterwards (another thread may already be growing again)");
     OBL(g_mutex_held == 0, "shared grow: the memory mutex is released on every path");
     OBL(mem.data == buf && g_realloc_calls == 0, "shared grow: the buffer is never moved or reallocated (max-sized reservation)");
     OBL(mem.maxPages == maxPages, "shared grow: the declared maximum is unchanged");
